@@ -780,6 +780,22 @@ def _c18(work, v, tier, seed):
     v.add_mc(r, "gen:Markov")
     # consecutive cases of one model re-initialise the same object: shuffle deterministically so that parameters really change
     lines = open(cases).read().splitlines()
+    # random points of the open simplex (the solver's answer for a repeated eigenvalue depends on the frequencies: about one
+    # vector in fifty comes back with a complex-conjugate pair), seeded
+    rnd = __import__("random").Random(1000 + seed)
+    def simplex():
+        x = [rnd.uniform(0.02, 1.0) for _ in range(4)]
+        t = sum(x)
+        x = [a / t for a in x[:3]]
+        return [repr(a) for a in x] + [repr(1.0 - sum(x))]
+    nf81, nother = (250, 40) if tier == "quick" else (4000, 600)
+    for _ in range(nf81):
+        lines.append(json.dumps({"model": "f81", "p": [], "pi": simplex()}, separators=(",", ":")))
+    for _ in range(nother):
+        k1, k2 = repr(rnd.uniform(0.2, 8)), repr(rnd.uniform(0.2, 8))
+        lines.append(json.dumps({"model": "f84", "p": [k1], "pi": simplex()}, separators=(",", ":")))
+        lines.append(json.dumps({"model": "tn93", "p": [k1, k2], "pi": simplex()}, separators=(",", ":")))
+        lines.append(json.dumps({"model": "gtr", "p": [repr(rnd.uniform(0.2, 5)) for _ in range(6)], "pi": simplex()}, separators=(",", ":")))
     __import__("random").Random(seed).shuffle(lines)
     open(cases, "w").write("\n".join(lines) + "\n")
     trace = vf.drive(work, "markov", cases=cases, seed=seed, tier=tier)
